@@ -514,7 +514,7 @@ func RunPackage(p *Package) *PkgResult {
 		switch a.stage {
 		case "compile":
 			results[i].Status = "compile"
-			results[i].Detail = trunc(structRe.ReplaceAllString(a.out, "S"), 3000)
+			results[i].Detail = trunc(structRe.ReplaceAllString(generatedFirst(a.out), "S"), 3000)
 		case "gombok":
 			results[i].Status = "rejected"
 			results[i].Detail = trunc(a.out, 2000)
@@ -641,4 +641,17 @@ func LoadResults(mode Mode) []*PkgResult {
 		}
 	}
 	return out
+}
+
+// generatedFirst puts the compiler errors located in gombok's output before those in the law test.
+func generatedFirst(out string) string {
+	var gen, rest []string
+	for _, l := range strings.Split(out, "\n") {
+		if strings.Contains(l, genFile) && errLineRe.MatchString(l) {
+			gen = append(gen, l)
+		} else {
+			rest = append(rest, l)
+		}
+	}
+	return strings.Join(append(gen, rest...), "\n")
 }
